@@ -336,7 +336,7 @@ class Run:
     """
 
     def __init__(self, mod, loop_bound=None, symbolic=True, rand=None, extern=None, prefix="k",
-                 while_true_cut=True, split=True, hyps=None, feas_timeout_ms=2000):
+                 while_true_cut=True, split=True, hyps=None, feas_timeout_ms=2000, domain="R"):
         self.mod = mod if isinstance(mod, KModule) else module(mod)
         self.loop_bound = loop_bound
         self.symbolic = symbolic
@@ -352,6 +352,7 @@ class Run:
         self.while_true_cut = while_true_cut
         self.called = []
         self.split = split
+        self.domain = domain
         self.hyps = [h for h in (hyps or []) if h is not True]
         self._solver = None
         self.feas_timeout_ms = feas_timeout_ms
@@ -436,6 +437,8 @@ class Run:
                 return int(v) if not isinstance(v, int) else v
             return sx.trunc(v)
         if kind == "float":
+            if self.domain == "F":
+                return sx.fp_cast(v, sx.fp_sort_of(bits))
             if isinstance(v, (bool, z3.BoolRef)):
                 v = sx.b2i(v)
             if not is_sym(v):
@@ -1046,7 +1049,7 @@ class Run:
             raise Unsupported(f"store into {type(base)}")
         a = base
         axes = list(idx) + [("slice", None, None)] * (a.ndim - len(idx))
-        ct = ("int", 64) if a.is_int() else (("float", 64) if a.dtype.startswith("float") else ("obj", 0))
+        ct = ("int", 64) if a.is_int() else (("float", 32 if a.dtype == "float32" else 64) if a.dtype.startswith("float") else ("obj", 0))
         simple = all(not isinstance(ax, tuple) for ax in axes)
         if simple:
             coords = []
@@ -1115,6 +1118,8 @@ class Run:
         return int(n.value.rstrip("LlUu"), 0)
 
     def e_FloatNode(self, n, frame, g):
+        if self.domain == "F":
+            return sx.fp_const(Fraction(n.value), sx.F64)
         return Fraction(n.value) if self.symbolic else float(n.value)
 
     def e_BoolNode(self, n, frame, g):
@@ -1289,6 +1294,8 @@ class Run:
     e_NumBinopNode = _bin
 
     def sqrt(self, x):
+        if sx.is_fp(x):
+            return z3.fpSqrt(sx.RNE, x)
         if isinstance(x, NF):
             return NF(x.nan, self.sqrt(x.val))
         if not is_sym(x):
